@@ -3,6 +3,7 @@ package main
 import (
 	"fmt"
 	"go/ast"
+	"go/token"
 	"go/types"
 	"strings"
 )
@@ -294,7 +295,37 @@ func (c *Ctx) ruleFalsifyingStepsWake(rule string) {
 	if R.DispLoop != nil {
 		v := c.vocab([]string{"step", "release"}, map[string]bool{"step": true, "release": true})
 		outer := 0
-		for _, sg := range v.seq(rule, false).segments(R.DispLoop) {
+		dsr := v.seq(rule, false)
+		// `if w.queues.Len() == 0 { release }`: the release is only needed once the queue was found empty (while jobs
+		// are pending, a parked caller is woken by a later completion, or by Pause's own release evaluation)
+		dsr.condExpr = func(fr *Frame, e ast.Expr, branch bool, ip *Interp, st *State) string {
+			be, op := binOp(e)
+			if be == nil {
+				return ""
+			}
+			info := fr.Fn.Info()
+			x, y := be.X, be.Y
+			isLen := func(e ast.Expr) bool {
+				call, ok := ast.Unparen(e).(*ast.CallExpr)
+				if !ok {
+					return false
+				}
+				k := resolveCallee(info, call).Key
+				return k == kMgrLen || k == kLenI
+			}
+			zero := func(e ast.Expr) bool { tv := info.Types[e]; return tv.Value != nil && tv.Value.ExactString() == "0" }
+			if !(isLen(x) && zero(y)) {
+				return ""
+			}
+			switch op {
+			case token.EQL:
+				return fmt.Sprintf("pending-empty=%v", branch)
+			case token.GTR, token.NEQ:
+				return fmt.Sprintf("pending-empty=%v", !branch)
+			}
+			return ""
+		}
+		for _, sg := range dsr.segments(R.DispLoop) {
 			if sg.Kind != "iter" {
 				continue
 			}
@@ -311,7 +342,7 @@ func (c *Ctx) ruleFalsifyingStepsWake(rule string) {
 			outer++
 			after := false
 			for _, s := range sg.Syms[inner+1:] {
-				if s == "release" {
+				if s == "release" || s == "pending-empty=false" {
 					after = true
 				}
 			}
